@@ -36,18 +36,21 @@ impl MetricLogWriter for DefaultMetricLogWriter {
             // ignore
             return Ok(());
         }
-        if time_sec > self.latest_op_sec {
-            let pos = self
-                .cur_metric_file
-                .as_ref()
-                .unwrap()
-                .write()
-                .unwrap()
-                .seek(SeekFrom::Current(0))?;
+        if time_sec > self.latest_op_sec && self.is_new_day(self.latest_op_sec, time_sec) {
+            // the index entry of this second belongs to the file that gets its lines
+            self.roll_to_next_file(ts)?;
+        }
+        let pos = self
+            .cur_metric_file
+            .as_ref()
+            .unwrap()
+            .write()
+            .unwrap()
+            .seek(SeekFrom::Current(0))?;
+        // every new second is indexed, and so are the first lines of a file (a second may continue
+        // in the next file after a roll-over, where its entry in the previous index does not help)
+        if time_sec > self.latest_op_sec || pos == 0 {
             self.write_index(time_sec, pos)?;
-            if self.is_new_day(self.latest_op_sec, time_sec) {
-                self.roll_to_next_file(ts)?;
-            }
         }
         // Write and flush
         self.write_items_and_flush(items)?;
